@@ -19,6 +19,9 @@ pub fn check(case: &BuildCase, fam: &str, obs: &mut Obs) -> Result<(), Fail> {
         }
     };
     label_case(obs, case, fam, Some(&built));
+    if let Some(d) = built.index_view_differs() {
+        return crate::engine::fail("index_view", format!("the row view of the symbol differs from its data: {} (case {:?})", d, case));
+    }
     let vals = built.values();
     let d = match decode_plain(&vals, built.size()) {
         Ok(d) => d,
